@@ -96,4 +96,11 @@ PROPS = {
         trusted_base=COMMON_TB + ["Codegen.generate / module_of / select_operation model lib.rs:133-150, generated_module.rs and query.rs:551; tied by RunGen.gen_corr (emitted modules, incl. OPERATION_NAME, QUERY, struct declaration, build_query wiring, must EQUAL the model's)", "QueryBody is translated from graphql_client/src/lib.rs; Serde.ser is the specification of serde's derive(Serialize) (validated in-process on QueryBody itself and by C15/C16)", "quote!'s printing of the query string literal and rustc's reading of it (QUERY constant): observed byte-for-byte through syn's LitStr on the emitted tokens, not compiled", 'the document text is opaque in the theorems (they hold for every text)'],
         assumptions=['operation names are pairwise distinct under the chosen normalization (otherwise both operations map to one module name and nothing compiles: K3)'],
     ),
+    "C06": dict(
+        coq_props=['Properties/C06.v'],
+        run_modules=['RunC06.v'],
+        harness_cmd='c06',
+        trusted_base=COMMON_TB + ['Query.v is a hand model of query.rs (create_roots, resolve_*), query/validation.rs and query/selection.rs validate_type_conditions; tied by RunC06.corr (outcome class Ok / Err / Panic on every valid and edited program, exact emitted modules on the valid ones)', "`applicable` (Properties) is the GraphQL spec's possible-types overlap restricted to the pairs the generator supports (equal, or one a possible concrete type of the other)", "graphql_parser's reading of the rendered documents"],
+        assumptions=['the rules are stated on the abstract schema the SDL builder produces (Schema.schema_of_sdl)'],
+    ),
 }
